@@ -199,6 +199,11 @@ func (cl *Client) WriteLoop() {
 			if err := cl.WritePacket(*pk); err != nil {
 				// TODO : Figure out what to do with error
 				cl.ops.log.Debug("failed publishing packet", "error", err, "client", cl.ID, "packet", pk)
+				cl.Lock()
+				if len(cl.State.outbound) == 0 {
+					_ = cl.flushOutbuf() // no later write will flush what earlier writes buffered
+				}
+				cl.Unlock()
 			}
 			atomic.AddInt32(&cl.State.outboundQty, -1)
 		case <-cl.State.open.Done():
